@@ -1,8 +1,10 @@
-(* Byte-level reading of references: a reference slot resolves to whatever is represented at
-   slot + stored offset; null is one reserved word; union references add the member index.
-   Together with RoundTrip.RT_all: a reference to a reference-free object decodes to that object,
-   wherever the buffer places it and however much the buffer has grown since. *)
-From Coq Require Import ZArith List Bool Lia.
+(* Byte-level reading of references (C08/C09).  The general statement is RoundTrip.RT_all: an object whose
+   reference slots satisfy [targets_ok] -- null word, or an offset relative to the slot at which the
+   referent's image sits, recursively, to any depth, through structs, arrays and unions -- decodes to its
+   value with all references followed.  Here: the one-slot corollaries, and growth (the new storage holds
+   the old bytes at the same offsets followed by more bytes): [targets_ok] is preserved, hence every
+   object decodes exactly as before. *)
+From Coq Require Import ZArith List Bool Lia ZifyBool.
 Import ListNotations.
 From XO Require Import ListAux Slots Strides BufOps BufOpsProofs Types Format Check LayoutProofs RoundTrip.
 Open Scope Z_scope.
@@ -14,13 +16,13 @@ Qed.
 
 Theorem dec_ref_resolves t v img rel m off :
   - 2^63 < rel < 2^63 -> sits (bytes (enc64 rel)) m off ->
-  enc t v = Some img -> sits img m (off + rel) -> len img < 2^62 ->
+  enc t v = Some img -> sits img m (off + rel) -> len img < 2^62 -> targets_ok t v m (off + rel) ->
   dec (TRef t) m off = Some (VRef v, 8).
 Proof.
-  intros Hr Hs He Ht Hl. cbn [dec]. rewrite (sits_in_range8 rel m off Hs). cbn [guard].
+  intros Hr Hs He Ht Hl Htok. cbn [dec]. rewrite (sits_in_range8 rel m off Hs). cbn [guard].
   rewrite (sits_rd64 rel m off ltac:(lia) Hs).
   replace (rel =? NULLVALUE) with false by (symmetry; apply Z.eqb_neq; unfold NULLVALUE; lia).
-  rewrite (RT_all t v img m (off + rel) He Ht Hl). reflexivity.
+  rewrite (RT_all t v img m (off + rel) He Ht Hl Htok). reflexivity.
 Qed.
 Theorem dec_ref_null t m off : sits (bytes (enc64 NULLVALUE)) m off -> dec (TRef t) m off = Some (VNull, 8).
 Proof.
@@ -28,45 +30,7 @@ Proof.
   rewrite (sits_rd64 NULLVALUE m off ltac:(unfold NULLVALUE; lia) Hs), Z.eqb_refl. reflexivity.
 Qed.
 
-Definition pick_member (m : mem) (base : Z) : list ty -> nat -> option (val * Z) :=
-  fix pick (ms : list ty) (k : nat) : option (val * Z) :=
-    match ms, k with
-    | mt :: _, O => dec mt m base
-    | _ :: tl, S k' => pick tl k'
-    | [], _ => None
-    end.
-Lemma pick_member_nth m base : forall ms k mt, nth_error ms k = Some mt -> pick_member m base ms k = dec mt m base.
-Proof. induction ms as [|x ms IH]; intros [|k] mt H; cbn in H; try discriminate; [inversion H; reflexivity|]. cbn. apply IH. exact H. Qed.
-
-Theorem dec_union_resolves ms k mt v img rel m off :
-  - 2^63 < rel < 2^63 -> sits (bytes (enc64 rel) ++ bytes (enc64 (Z.of_nat k))) m off -> Z.of_nat k < 2^63 ->
-  nth_error ms k = Some mt -> enc mt v = Some img -> sits img m (off + rel) -> len img < 2^62 ->
-  dec (TUnion ms) m off = Some (VMember k v, 16).
-Proof.
-  intros Hr Hs Hk Hn He Ht Hl.
-  assert (L8 : forall x, len (bytes (enc64 x)) = 8) by (intros x; rewrite len_bytes; unfold len; rewrite enc64_length; reflexivity).
-  pose proof Hs as Hs0. apply sits_in_range in Hs0. rewrite len_app, !L8 in Hs0.
-  apply sits_app in Hs. destruct Hs as [S1 S2]. rewrite L8 in S2.
-  cbn [dec]. change (8 + 8) with 16 in Hs0. rewrite Hs0. cbn [guard].
-  rewrite (sits_rd64 rel m off ltac:(lia) S1), (sits_rd64 (Z.of_nat k) m (off + 8) ltac:(lia) S2).
-  replace (rel =? NULLVALUE) with false by (symmetry; apply Z.eqb_neq; unfold NULLVALUE; lia).
-  replace (0 <=? Z.of_nat k) with true by (symmetry; apply Z.leb_le; lia). cbn [guard].
-  rewrite Nat2Z.id. change (pick_member m (off + rel) ms k) with (pick_member m (off + rel) ms k).
-  fold (pick_member m (off + rel)). rewrite (pick_member_nth m (off + rel) ms k mt Hn).
-  rewrite (RT_all mt v img m (off + rel) He Ht Hl). reflexivity.
-Qed.
-Theorem dec_union_null ms m off : sits (bytes (enc64 NULLVALUE) ++ bytes (enc64 (-1))) m off -> dec (TUnion ms) m off = Some (VNull, 16).
-Proof.
-  intros Hs.
-  assert (L8 : forall x, len (bytes (enc64 x)) = 8) by (intros x; rewrite len_bytes; unfold len; rewrite enc64_length; reflexivity).
-  pose proof Hs as Hs0. apply sits_in_range in Hs0. rewrite len_app, !L8 in Hs0.
-  apply sits_app in Hs. destruct Hs as [S1 S2]. rewrite L8 in S2.
-  cbn [dec]. change (8 + 8) with 16 in Hs0. rewrite Hs0. cbn [guard].
-  rewrite (sits_rd64 NULLVALUE m off ltac:(unfold NULLVALUE; lia) S1), (sits_rd64 (-1) m (off + 8) ltac:(lia) S2). reflexivity.
-Qed.
-
-(* growth: new storage holds the old bytes at the same offsets followed by more bytes; every image
-   still sits where it sat, so everything the theorems above decode is decoded unchanged *)
+(* ---- growth ---- *)
 Lemma sits_grow img m off extra : sits img m off -> sits img (m ++ extra) off.
 Proof.
   intros [A [B C]]. split; [exact A|]. split.
@@ -74,16 +38,75 @@ Proof.
   - intros i b Hi. rewrite nth_error_app1; [apply C; exact Hi|].
     specialize (C i b Hi). apply nth_error_Some. rewrite C. discriminate.
 Qed.
-Theorem dec_survives_growth t v img m off extra :
-  enc t v = Some img -> sits img m off -> len img < 2^62 ->
-  dec t (m ++ extra) off = dec t m off.
+Lemma in_rangeb_grow m extra off n : in_rangeb m off n = true -> in_rangeb (m ++ extra) off n = true.
+Proof. unfold in_rangeb. rewrite app_length. intros H. lia. Qed.
+Lemma rd_grow m extra off n : in_rangeb m off n = true -> rd (m ++ extra) off n = rd m off n.
 Proof.
-  intros He Hs Hl. rewrite (RT_all t v img m off He Hs Hl). apply (RT_all t v img (m ++ extra) off He); [apply sits_grow; exact Hs|exact Hl].
+  unfold in_rangeb, rd. intros H. rewrite skipn_app. rewrite firstn_app.
+  replace (Z.to_nat n - length (skipn (Z.to_nat off) m))%nat with O by (rewrite skipn_length; lia).
+  cbn [firstn]. rewrite app_nil_r. reflexivity.
 Qed.
-Theorem ref_survives_growth t v img rel m off extra :
-  - 2^63 < rel < 2^63 -> sits (bytes (enc64 rel)) m off ->
-  enc t v = Some img -> sits img m (off + rel) -> len img < 2^62 ->
-  dec (TRef t) (m ++ extra) off = Some (VRef v, 8).
+Lemma rd64_grow m extra off : in_rangeb m off 8 = true -> rd64 (m ++ extra) off = rd64 m off.
+Proof. intros H. unfold rd64. rewrite rd_grow by exact H. reflexivity. Qed.
+Lemma in_rangeb_sub m off n k : in_rangeb m off n = true -> 0 <= k -> k + 8 <= n -> in_rangeb m (off + k) 8 = true.
+Proof. unfold in_rangeb. intros H. lia. Qed.
+
+Definition GROW (t : ty) : Prop := forall v m off extra, targets_ok t v m off -> targets_ok t v (m ++ extra) off.
+
+Lemma tok_static_list_grow m extra : forall fs, Forall GROW fs -> forall vs o, tok_static_list m fs vs o -> tok_static_list (m ++ extra) fs vs o.
 Proof.
-  intros Hr Hs He Ht Hl. apply (dec_ref_resolves t v img rel); try assumption; apply sits_grow; assumption.
+  induction fs as [|f fs IH]; intros HF vs o H; destruct vs as [|v vs]; cbn [tok_static_list] in *; try exact H.
+  inversion HF as [|? ? Hf HFt]; subst. destruct H as [H1 H2]. split; [apply Hf; exact H1|]. destruct (enc f v); [apply IH; assumption|exact H2].
+Qed.
+Lemma tok_dyn_list_grow m extra off : forall fs, Forall GROW fs -> forall vs so dnext, tok_dyn_list m off fs vs so dnext -> tok_dyn_list (m ++ extra) off fs vs so dnext.
+Proof.
+  induction fs as [|f fs IH]; intros HF vs so dnext H; destruct vs as [|v vs]; cbn [tok_dyn_list] in *; try exact H.
+  inversion HF as [|? ? Hf HFt]; subst. destruct (enc f v); [|exact H].
+  destruct (is_static f); destruct H as [H1 H2]; (split; [apply Hf; exact H1|apply IH; assumption]).
+Qed.
+Lemma tok_pick_grow m extra base w : forall ms, Forall GROW ms -> forall k, tok_pick m base w ms k -> tok_pick (m ++ extra) base w ms k.
+Proof.
+  induction ms as [|mt ms IH]; intros HF k H; [destruct k; exact H|]. inversion HF as [|? ? Hm HFt]; subst.
+  destruct k as [|k]; cbn [tok_pick] in *.
+  - destruct H as [timg [E [S [L T]]]]. exists timg. split; [exact E|]. split; [apply sits_grow; exact S|]. split; [exact L|apply Hm; exact T].
+  - apply IH; assumption.
+Qed.
+
+Theorem targets_ok_grow : forall t, GROW t.
+Proof.
+  apply ty_ind'.
+  - intros k v m off extra _. destruct v; exact I.
+  - intros v m off extra _. destruct v; exact I.
+  - intros fs HF v m off extra H. destruct v as [| |vs| | | |]; try exact I. rewrite targets_ok_struct_eq in *.
+    destruct (forallb is_static fs); [apply tok_static_list_grow|apply tok_dyn_list_grow]; assumption.
+  - intros item shape order HI v m off extra H. destruct v as [| | |sh items| | |]; try exact I. rewrite targets_ok_array_eq in *.
+    destruct (seqopt (map (enc item) items)); [|exact H]. intros c Hc. apply HI. apply H. exact Hc.
+  - intros t HT v m off extra H. destruct v as [| | | | |w|]; try exact I; cbn [targets_ok] in *.
+    + destruct H as [Hr Hn]. split; [apply in_rangeb_grow; exact Hr|]. rewrite rd64_grow by exact Hr. exact Hn.
+    + destruct H as [Hr [Hn [timg [E [S [L T]]]]]]. rewrite rd64_grow by exact Hr.
+      split; [apply in_rangeb_grow; exact Hr|]. split; [exact Hn|]. exists timg. split; [exact E|]. split; [apply sits_grow; exact S|]. split; [exact L|apply HT; exact T].
+  - intros ms HF v m off extra H. destruct v as [| | | | | |k w]; try exact I.
+    + cbn [targets_ok] in *. destruct H as [Hr [Hn Hm1]].
+      split; [apply in_rangeb_grow; exact Hr|].
+      pose proof (in_rangeb_sub m off 16 0 Hr ltac:(lia) ltac:(lia)) as R0. replace (off + 0) with off in R0 by lia.
+      pose proof (in_rangeb_sub m off 16 8 Hr ltac:(lia) ltac:(lia)) as R8.
+      rewrite (rd64_grow m extra off R0), (rd64_grow m extra (off + 8) R8). split; assumption.
+    + change (targets_ok (TUnion ms) (VMember k w) m off) with
+        (in_rangeb m off 16 = true /\ rd64 m off <> NULLVALUE /\ rd64 m (off + 8) = Z.of_nat k /\ tok_pick m (off + rd64 m off) w ms k) in H.
+      change (targets_ok (TUnion ms) (VMember k w) (m ++ extra) off) with
+        (in_rangeb (m ++ extra) off 16 = true /\ rd64 (m ++ extra) off <> NULLVALUE /\ rd64 (m ++ extra) (off + 8) = Z.of_nat k /\ tok_pick (m ++ extra) (off + rd64 (m ++ extra) off) w ms k).
+      destruct H as [Hr [Hn [Hk Hp]]].
+      pose proof (in_rangeb_sub m off 16 0 Hr ltac:(lia) ltac:(lia)) as R0. replace (off + 0) with off in R0 by lia.
+      pose proof (in_rangeb_sub m off 16 8 Hr ltac:(lia) ltac:(lia)) as R8.
+      rewrite (rd64_grow m extra off R0), (rd64_grow m extra (off + 8) R8).
+      split; [apply in_rangeb_grow; exact Hr|]. split; [exact Hn|]. split; [exact Hk|]. apply tok_pick_grow; assumption.
+Qed.
+
+(* every object -- reference-free or holding references to any depth -- decodes exactly as before the growth *)
+Theorem dec_survives_growth t v img m off extra :
+  enc t v = Some img -> sits img m off -> len img < 2^62 -> targets_ok t v m off ->
+  dec t (m ++ extra) off = Some (v, len img) /\ dec t m off = Some (v, len img).
+Proof.
+  intros He Hs Hl Ht. split; [|exact (RT_all t v img m off He Hs Hl Ht)].
+  apply (RT_all t v img (m ++ extra) off He); [apply sits_grow; exact Hs|exact Hl|apply targets_ok_grow; exact Ht].
 Qed.
